@@ -106,16 +106,13 @@ def coq_build(pid):
 
 def print_assumptions(pid):
     """re-run coqc on the property file to capture Print Assumptions output"""
-    d = os.path.join(BUILD, f"pa_{pid}")
+    d = os.path.join(BUILD, f"pa_{pid}_{os.getpid()}")
     os.makedirs(d, exist_ok=True)
     out_vo = os.path.join(d, f"Properties_{pid}.vo")
     rc, out = sh(["coqc", "-Q", COQ, "DF", os.path.join(COQ, "props", f"Properties_{pid}.v"),
                   "-o", out_vo], 900)
-    for f in glob.glob(os.path.join(d, "*")) + glob.glob(os.path.join(d, ".*.aux")):
-        try:
-            os.remove(f)
-        except OSError:
-            pass
+    import shutil
+    shutil.rmtree(d, ignore_errors=True)
     src = strip_comments(open(os.path.join(COQ, "props", f"Properties_{pid}.v")).read())
     theorems = re.findall(r"^\s*(?:Theorem|Lemma|Corollary|Example)\s+(\w+)", src, re.M)
     blocks = []
@@ -154,10 +151,9 @@ def broken_theorem(build_log):
 
 # ---------------------------------------------------------------- shards
 def run_shards(pid, records, module_name, case_type, check_fn, extra_imports=""):
-    d = os.path.join(BUILD, pid)
+    # one private directory per run: two checks of the same property may run at the same time
+    d = os.path.join(BUILD, pid, f"run_{os.getpid()}")
     os.makedirs(d, exist_ok=True)
-    for f in glob.glob(os.path.join(d, "shard_*")):
-        os.remove(f)
     shards = [records[i:i + SHARD] for i in range(0, len(records), SHARD)]
     files = []
     for k, sh_ in enumerate(shards):
@@ -210,11 +206,9 @@ def run_shards(pid, records, module_name, case_type, check_fn, extra_imports="")
         reap(block=False)
         if running and (not pending or len(running) >= maxp):
             time.sleep(0.05)
-    for f in glob.glob(os.path.join(d, "shard_*")):
-        if not f.endswith(".v"):
-            os.remove(f)
-    for f in glob.glob(os.path.join(d, ".shard_*")):
-        os.remove(f)
+    if not errors and not os.environ.get("VERIF_KEEP_SHARDS"):
+        import shutil
+        shutil.rmtree(d, ignore_errors=True)
     return sorted(failing), errors, len(shards), time.time() - t0
 
 
@@ -239,7 +233,7 @@ def write_replay(pid, payload):
 
 def run_impl(pid, tier, seed, extra=None):
     os.makedirs(BUILD, exist_ok=True)
-    out = os.path.join(BUILD, f"impl_{pid}.json")
+    out = os.path.join(BUILD, f"impl_{pid}_{os.getpid()}.json")
     if os.path.exists(out):
         os.remove(out)
     cmd = [PY, "-m", "harness.run_impl", pid, tier, str(seed), out]
@@ -248,7 +242,9 @@ def run_impl(pid, tier, seed, extra=None):
     rc, txt = sh(cmd, 3000 if tier == "thorough" else 1500, cwd=VERIF, env=child_env())
     if rc != 0 or not os.path.exists(out):
         return None, txt
-    return json.load(open(out)), txt
+    data = json.load(open(out))
+    os.remove(out)
+    return data, txt
 
 
 def main():
